@@ -10701,6 +10701,11 @@ impl SctpTransport {
         impl std::future::Future<Output = ()> + Send + 'static,
     ) {
         let (_unused_tx, unused_rx) = mpsc::unbounded_channel::<Bytes>();
+        // The stock runner is dropped unpolled below; its drop guard closes the association
+        // and every channel it can see. The hook's own runner replaces it, so the channels
+        // are kept out of its sight and the state is put back to its initial value.
+        let held: Vec<Weak<DataChannel>> = std::mem::take(&mut *data_channels.lock());
+        let channel_list = data_channels.clone();
         let (mut transport, runner) = Self::new(
             dtls_transport,
             unused_rx,
@@ -10713,10 +10718,12 @@ impl SctpTransport {
         );
         // The stock runner (never polled) owns the only other references.
         drop(runner);
+        *channel_list.lock() = held;
         {
             let t = Arc::get_mut(&mut transport).expect("fresh transport");
             let inner = Arc::get_mut(&mut t.inner).expect("fresh inner");
             inner.outgoing_packet_tx = outgoing_packet_tx;
+            *inner.state.lock() = SctpState::New;
         }
         let inner = transport.inner.clone();
         let close_rx = transport.close_tx.clone();
